@@ -150,6 +150,7 @@ type Chain struct {
 	PrivateMempool bool // some CheckTx calls go to one replica only
 	MempoolDirty   bool
 	PrivateChecks  int
+	Grafts         int // private CheckTx of (signature of a delivered transaction, other payload)
 	HasHot      bool // most transactions come from HotSender (long histories: per-sender state grows)
 	HotSender     int
 	PoolKeys      int    // how many universe keys candidate configurations may contain (default nKeyperKeys)
@@ -976,6 +977,24 @@ func (c *Chain) privateCheckTx(t *rapid.T) {
 	c.PrivateChecks++
 }
 
+// privateGraft offers to one replica's mempool a byte string made of the signature of tx and the payload of
+// another generated transaction (it recovers to some unrelated address), just before tx itself is delivered.
+func (c *Chain) privateGraft(t *rapid.T, tx []byte, tag string) {
+	i := rapid.IntRange(1, len(c.Reps)-1).Draw(t, "graftRep")
+	other, otag := c.genTx(t)
+	a, err1 := base64.RawURLEncoding.DecodeString(string(tx))
+	b, err2 := base64.RawURLEncoding.DecodeString(string(other))
+	if err1 != nil || err2 != nil || len(a) < 65 || len(b) < 65 {
+		return
+	}
+	g := []byte(base64.RawURLEncoding.EncodeToString(append(append([]byte{}, a[:65]...), b[65:]...)))
+	c.Desc = append(c.Desc, fmt.Sprintf("P%d:sig(%s)+payload(%s)", i, tag, otag))
+	c.guard("CheckTx(graft "+tag+")", func() { c.Reps[i].CheckTx(abcitypes.RequestCheckTx{Tx: g}) })
+	c.MempoolDirty = true
+	c.PrivateChecks++
+	c.Grafts++
+}
+
 func (c *Chain) Step(t *rapid.T) {
 	if c.PrivateMempool && len(c.Reps) > 1 && rapid.IntRange(0, 4).Draw(t, "private") == 0 {
 		c.privateCheckTx(t)
@@ -987,6 +1006,9 @@ func (c *Chain) Step(t *rapid.T) {
 		tx, tag := c.genTx(t)
 		if rapid.IntRange(0, 3).Draw(t, "precheck") == 0 {
 			c.CheckTx(tx, tag)
+		}
+		if c.PrivateMempool && len(c.Reps) > 1 && rapid.IntRange(0, 3).Draw(t, "graft") == 0 {
+			c.privateGraft(t, tx, tag)
 		}
 		c.DeliverTx(tx, tag)
 	case sel == 6:
